@@ -130,7 +130,7 @@ Definition a_enable (A : astate) (r : role) : astate * res unit :=
       else fail A EC_ARG
   | None =>
       match str_to_bytes NAME_LEN (r_name r) with
-      | Err _ => fail A EC_LEN
+      | Err e => fail A (if e =? E_LEN then EC_LEN else EC_ARG)
       | Ok nb =>
           if decide (MAX_ROLES <= Z.of_nat (size (ar A))) then fail A EC_FULL
           else okA (mkA (<[r_key r := (nb, true)]> (ar A)) (ag A))
